@@ -47,6 +47,8 @@ func main() {
 		cmdRun(os.Args[2:])
 	case "check":
 		os.Exit(cmdCheck(os.Args[2:]))
+	case "replay":
+		os.Exit(cmdReplay(os.Args[2:]))
 	case "selftest":
 		os.Exit(cmdSelftest(os.Args[2:]))
 	default:
@@ -168,4 +170,89 @@ func printSummary(e *Explorer, d time.Duration) {
 			fmt.Printf("    note: %s\n", n)
 		}
 	}
+}
+
+// cmdReplay re-runs one replay file natively against the real build of the current tree.
+// Exit 1 when the recorded violation reproduces, 0 when it does not, 2 on errors.
+func cmdReplay(args []string) int {
+	if len(args) < 2 {
+		fmt.Fprintln(os.Stderr, "usage: vsym replay <ID> <replay.json>")
+		return 2
+	}
+	id, path := args[0], args[1]
+	vd, rd := verifDir(), repoDir()
+	sb, err := os.ReadFile(filepath.Join(vd, "harness", id, "spec.json"))
+	if err != nil {
+		fmt.Fprintln(os.Stderr, err)
+		return 2
+	}
+	var spec Spec
+	if err := json.Unmarshal(sb, &spec); err != nil {
+		fmt.Fprintln(os.Stderr, "spec:", err)
+		return 2
+	}
+	rb, err := os.ReadFile(path)
+	if err != nil {
+		fmt.Fprintln(os.Stderr, err)
+		return 2
+	}
+	var rf struct {
+		Harness string `json:"harness"`
+		Label   string `json:"label"`
+		Kind    string `json:"kind"`
+	}
+	if err := json.Unmarshal(rb, &rf); err != nil {
+		fmt.Fprintln(os.Stderr, "replay file:", err)
+		return 2
+	}
+	pkg, found, native := "", false, false
+	for _, h := range spec.Harnesses {
+		if h.Entry == rf.Harness {
+			pkg, found, native = h.Pkg, true, h.Native
+		}
+	}
+	if !found {
+		fmt.Fprintf(os.Stderr, "harness %s is not part of %s\n", rf.Harness, id)
+		return 2
+	}
+	if !native {
+		fmt.Printf("harness %s has no native mode (its counterexamples stand on the solver's verdict through contract stubs); replay file: %s\n", rf.Harness, path)
+		return 0
+	}
+	ov := baseOverlay(vd, rd)
+	testOv := map[string]string{}
+	for virt, real := range spec.Files {
+		if strings.HasSuffix(virt, "_test.go") {
+			testOv[filepath.Join(rd, virt)] = filepath.Join(vd, real)
+			continue
+		}
+		ov[filepath.Join(rd, virt)] = filepath.Join(vd, real)
+	}
+	tmp, _ := os.MkdirTemp("", "vsym-replay-")
+	defer os.RemoveAll(tmp)
+	abs, _ := filepath.Abs(path)
+	results, err := runNative(vd, rd, tmp, pkg, ov, testOv, []string{abs})
+	if err != nil {
+		fmt.Fprintln(os.Stderr, "native replay failed:", firstLines(err.Error(), 30))
+		return 2
+	}
+	r := results[abs]
+	fmt.Printf("harness=%s recorded: kind=%s label=%q\nnative: failed=%v panicked=%v %s reached=%v notes=%v diverged=%q skipped=%v\n",
+		rf.Harness, rf.Kind, rf.Label, r.Failed, r.Panicked, firstLines(r.PanicVal, 5), r.Reached, r.Notes, r.Diverged, r.Skipped)
+	repro := false
+	if rf.Kind == "panic" {
+		repro = r.Panicked
+	} else {
+		for _, f := range r.Failed {
+			if f == rf.Label {
+				repro = true
+			}
+		}
+	}
+	if repro {
+		fmt.Printf("VIOLATION property=%s replay=%s\n", id, path)
+		return 1
+	}
+	fmt.Println("the recorded violation does not reproduce on this tree")
+	return 0
 }
